@@ -29,7 +29,9 @@ impl IrValue {
         match t {
             Native => Ok(big_to_fe::<F>(num_bigint::BigUint::from_bytes_le(bytes)).into()),
 
-            BigUint(n) if n >= 8 * bytes.len() as u32 => {
+            // An empty byte array is rejected: the in-circuit analog would be a BigUint
+            // without limbs, which the BigUint gadget does not operate on.
+            BigUint(n) if n >= 8 * bytes.len() as u32 && !bytes.is_empty() => {
                 Ok(num_bigint::BigUint::from_bytes_le(bytes).into())
             }
 
@@ -86,7 +88,7 @@ pub fn from_bytes_incircuit(
     match t {
         Native => Ok(std_lib.assigned_from_le_bytes(layouter, bytes)?.into()),
 
-        BigUint(n) if n >= 8 * bytes.len() as u32 => {
+        BigUint(n) if n >= 8 * bytes.len() as u32 && !bytes.is_empty() => {
             Ok(std_lib.biguint().from_le_bytes(layouter, bytes)?.into())
         }
 
